@@ -227,6 +227,7 @@ func WorkerMain(id, tier string, shard, nshards int, seed int64, only map[string
 	c := &Ctx{ID: id, Tier: tier, Shard: shard, NShards: nshards, Seed: seed, Only: only, R: newResult()}
 	c.deadline = time.Now().Add(deadlineFor(tier))
 	startWatchdog(workerNoReturn(c, out))
+	startDeadlineGuard(c, out)
 	chk.Run(c)
 	b, err := json.Marshal(c.R)
 	if err != nil {
@@ -577,8 +578,8 @@ func ReplayMain(path string) int {
 		tier = "quick"
 	}
 	c := &Ctx{ID: v.Property, Tier: tier, Shard: 0, NShards: 1, Only: only, R: newResult()}
-	startWatchdog(func(desc string, cpu float64) {
-		fmt.Printf("VIOLATION property=%s replay=%s\n  reproduced: kind=no-return key=%s\n  no return after %.0f CPU-seconds\n", v.Property, path, trunc(desc, 400), cpu)
+	startWatchdog(func(desc string, cpu float64, blocked bool) {
+		fmt.Printf("VIOLATION property=%s replay=%s\n  reproduced: kind=no-return key=%s\n  no return after %.0f CPU-seconds (blocked=%v)\n", v.Property, path, trunc(desc, 400), cpu, blocked)
 		os.Exit(1)
 	})
 	chk.Run(c)
